@@ -591,6 +591,18 @@ func c19Actions() []c19Action {
 		p72 := "p1" + strings.Repeat("x", 70)
 		p73, p73alt := p72+"Z", p72+"Q"
 		acts = append(acts, putUser("alice", p73, "alice@example.com", true), putUser("alice", p72, "alice@example.com", true))
+		// strings that differ from a password by blanks around it are other strings
+		for _, pw := range []string{"p1 ", " p1", "p1\n", "\tp1\r\n", "p2 ", "P1"} {
+			pw := pw
+			acts = append(acts, c19Action{name: fmt.Sprintf("login alice/%+q", pw), req: func(m *c19Model) c19Req {
+				return c19Req{method: "POST", path: "/login", body: url.Values{"user": {"alice"}, "password": {pw}}.Encode(), ctype: "application/x-www-form-urlencoded", cookie: m.cookie}
+			}, apply: func(m *c19Model, rep *c19Reply) (bool, string, string, string) {
+				if credsOK(m, "alice", pw) {
+					login(m, rep, "alice")
+				}
+				return false, "", "", ""
+			}})
+		}
 		for _, pw := range []string{p72, p73, p73alt, p72 + "ZZ"} {
 			pw := pw
 			acts = append(acts, c19Action{name: fmt.Sprintf("login alice/%d-byte-password-ending-%q", len(pw), pw[len(pw)-2:]), req: func(m *c19Model) c19Req {
